@@ -333,13 +333,26 @@ func (t *BPTree) WriteNodes(rwMode RWMode, syncEnable bool, flag int) error {
 		return err
 	}
 
-	verifAccess("queue", true, nil)
-	queue = nil
+	// breadth-first over the tree with a queue of its own: the package-level
+	// queue is shared by every tree (and every database) of the process.
+	// Like enqueue/dequeue it chains the nodes through Next, which WriteNode
+	// reads to find the node written after this one.
+	var head, tail *Node
+	push := func(node *Node) {
+		node.Next = nil
+		if head == nil {
+			head, tail = node, node
+		} else {
+			tail.Next = node
+			tail = node
+		}
+	}
 
-	enqueue(t.root)
+	push(t.root)
 
-	for queue != nil {
-		n = dequeue()
+	for head != nil {
+		n = head
+		head = head.Next
 
 		_, err := t.WriteNode(n, -1, syncEnable, fd)
 		if err != nil {
@@ -350,7 +363,7 @@ func (t *BPTree) WriteNodes(rwMode RWMode, syncEnable bool, flag int) error {
 			if !n.isLeaf {
 				for i = 0; i <= n.KeysNum; i++ {
 					c, _ := n.pointers[i].(*Node)
-					enqueue(c)
+					push(c)
 				}
 			}
 		}
